@@ -5,6 +5,7 @@ mod cek;
 mod gen_fun;
 mod emu;
 mod json;
+mod mutate;
 mod sem_axcut;
 mod sem_core;
 mod native;
@@ -176,6 +177,22 @@ fn real_main() -> i32 {
                 }
             }
             println!("{stats:?}");
+        }
+        Some("printstages") => {
+            // printstages <file> [warmup files...] : compile the warm-up files first, then print all stages of <file>
+            pipeline::install_quiet_panic_hook();
+            for w in args.iter().skip(3) {
+                if let Ok(src) = std::fs::read_to_string(w) {
+                    let _ = props::c17::print_stages(&src);
+                }
+            }
+            let src = std::fs::read_to_string(&args[2]).expect("file");
+            let m = props::c17::print_stages(&src);
+            let mut j = json::J::obj();
+            for (k, v) in m {
+                j.set(&k, json::J::s(v));
+            }
+            println!("{}", j.to_string());
         }
         Some("dump") => {
             use printer::Print;
